@@ -375,6 +375,8 @@ func (s *Seed) alphabet(dir string) {
 		r.InA2 = true
 	}
 
+	s.crossPackageRules(g)
+
 	for _, r := range s.A1 {
 		if r.InA2 {
 			s.A2 = append(s.A2, r)
@@ -383,6 +385,141 @@ func (s *Seed) alphabet(dir string) {
 			s.A3 = append(s.A3, r)
 		}
 	}
+}
+
+// crossPackageRules: every builder rule kind behind the selectors that are
+// NOT tied to the package of the rule file (by_variant for every variant of
+// the seed, generated_from_disjunction). Such a selector picks builders of
+// several packages at once, possibly for objects of the same name; the rule
+// parameters name what the selected objects have in common (fields and
+// options present, by name, in at least two of them) and, for the error
+// outcome, what only one of them has.
+func (s *Seed) crossPackageRules(g *gen) {
+	add := g.add
+	type csel struct {
+		params map[string]any
+		sel    Sel
+		tag    string
+	}
+	var sels []csel
+	seenVariant := map[string]bool{}
+	for _, p := range s.Spec.Pkgs {
+		if p.Kind == string(ast.SchemaKindComposable) && p.Variant != "" && !seenVariant[p.Variant] {
+			seenVariant[p.Variant] = true
+			sels = append(sels, csel{map[string]any{"by_variant": p.Variant}, Sel{Mode: "variant", Name: p.Variant}, "variant"})
+		}
+	}
+	sels = append(sels, csel{map[string]any{"generated_from_disjunction": true}, Sel{Mode: "disj"}, "disj"})
+	pkg := s.Spec.Pkgs[0].Pkg
+	for _, cs := range sels {
+		probe := &Rule{B: true, Pkg: pkg, Sel: cs.sel}
+		var selected []*ast.Builder
+		for i := range s.Init.Builders {
+			if probe.selectsBuilder(s.Pristine, &s.Init.Builders[i]) {
+				selected = append(selected, &s.Init.Builders[i])
+			}
+		}
+		if len(selected) < 2 {
+			continue // the single-builder case is what the name selectors already do
+		}
+		mk := func(kind, id string, params map[string]any, r Rule) *Rule {
+			r.B, r.Pkg, r.Kind, r.ID, r.Params, r.Sel, r.Class = true, pkg, kind, id, params, cs.sel, "cross"
+			out := add(&r)
+			out.InA2 = true
+			return out
+		}
+		mk("omit", "", cs.params, Rule{})
+		mk("rename", ";as=Spanned", with(cs.params, "as", "Spanned"), Rule{As: "Spanned"})
+		mk("duplicate", ";as=SpannedCopy", with(cs.params, "as", "SpannedCopy"), Rule{As: "SpannedCopy"}).InA3 = true
+		mk("properties", ";set=prop:string", with(cs.params, "set", []ast.StructField{{Name: "prop", Type: ast.String()}}), Rule{})
+		mk("add_factory", ";factory=preset()", with(cs.params, "factory", ast.BuilderFactory{Name: "preset", Comments: []string{"no calls"}}), Rule{})
+
+		// field paths (depth 1 and 2) and option names by how many selected builders have them
+		var order []string
+		count := map[string]int{}
+		firstType := map[string]ast.Type{}
+		note := func(path string, t ast.Type) {
+			if count[path] == 0 {
+				order = append(order, path)
+				firstType[path] = t
+			}
+			count[path]++
+		}
+		optCount := map[string]int{}
+		var optOrder []string
+		for _, b := range selected {
+			rt, _ := resolve(s.Pristine, b.For.Type)
+			if rt.Kind != ast.KindStruct || rt.Struct == nil {
+				continue
+			}
+			for _, f := range rt.Struct.Fields {
+				note(f.Name, f.Type)
+				if f.Type.Kind != ast.KindRef || f.Type.Ref == nil {
+					continue
+				}
+				if _, has := findBuilderFor(s.Init.Builders, f.Type.Ref.ReferredPkg, f.Type.Ref.ReferredType); !has {
+					continue
+				}
+				if inner, ok := resolve(s.Pristine, f.Type); ok && inner.Kind == ast.KindStruct {
+					for _, gf := range inner.Struct.Fields {
+						note(f.Name+"."+gf.Name, gf.Type)
+					}
+				}
+			}
+			for _, o := range b.Options {
+				if optCount[o.Name] == 0 {
+					optOrder = append(optOrder, o.Name)
+				}
+				optCount[o.Name]++
+			}
+		}
+		value := func(t ast.Type) any {
+			if t.Kind == ast.KindScalar && t.Scalar != nil {
+				return scalarValue(t)
+			}
+			return "v"
+		}
+		lonely := 0
+		for _, path := range order {
+			t := firstType[path]
+			if count[path] < 2 {
+				if lonely++; lonely > 2 {
+					continue // two error-outcome instances are enough
+				}
+			}
+			r := mk("initialize", ";set="+path, with(cs.params, "set", []map[string]any{{"property": path, "value": value(t)}}), Rule{})
+			if count[path] >= 2 {
+				r.InA3 = true
+			}
+			constOpt := veneers.Option{Name: "spannedConst", Assignments: []veneers.Assignment{{Path: path, Method: ast.DirectAssignment, Value: veneers.AssignmentValue{Constant: value(t)}}}}
+			mk("add_option", ";option=spannedConst->"+path, with(cs.params, "option", constOpt), Rule{As: "spannedConst"})
+			if t.Kind == ast.KindScalar && t.Scalar != nil && t.Scalar.Value == nil {
+				arg := ast.Argument{Name: "val", Type: plainScalar(t)}
+				argOpt := veneers.Option{Name: "spanned", Arguments: []ast.Argument{arg},
+					Assignments: []veneers.Assignment{{Path: path, Method: ast.DirectAssignment, Value: veneers.AssignmentValue{Argument: &arg}}}}
+				mk("add_option", ";option=spanned(val)->"+path, with(cs.params, "option", argOpt), Rule{As: "spanned"})
+			}
+		}
+		var common []string
+		for _, on := range optOrder {
+			if optCount[on] >= 2 {
+				common = append(common, on)
+				mk("promote_options_to_constructor", ";options="+on, with(cs.params, "options", []string{on}), Rule{Opts: []string{on}})
+			}
+		}
+		if len(common) >= 2 {
+			mk("promote_options_to_constructor", ";options="+common[0]+"+"+common[1], with(cs.params, "options", common[:2]), Rule{Opts: common[:2]})
+		}
+	}
+}
+
+func findBuilderFor(bs []ast.Builder, pkg, obj string) (*ast.Builder, bool) {
+	for i := range bs {
+		if bs[i].For.SelfRef.ReferredPkg == pkg && bs[i].For.SelfRef.ReferredType == obj {
+			return &bs[i], true
+		}
+	}
+	return nil, false
 }
 
 // gen generates rules for one seed: the static alphabet (from the initial
